@@ -156,17 +156,8 @@ func (w *PackWriter) save() error {
 		return err
 	}
 	if !exists {
-		idx, err := w.fs.Create(idxPath)
+		err := w.writeCompanion(idxPath, func(f io.Writer) error { return w.encodeIdx(f, h) })
 		if err != nil {
-			return err
-		}
-
-		if err := w.encodeIdx(idx, h); err != nil {
-			_ = idx.Close()
-			return err
-		}
-
-		if err := idx.Close(); err != nil {
 			return err
 		}
 		fixPermissions(w.fs, idxPath)
@@ -179,17 +170,8 @@ func (w *PackWriter) save() error {
 			return err
 		}
 		if !exists {
-			rev, err := w.fs.Create(revPath)
+			err := w.writeCompanion(revPath, func(f io.Writer) error { return w.encodeRev(f, h) })
 			if err != nil {
-				return err
-			}
-
-			if err := w.encodeRev(rev, h); err != nil {
-				_ = rev.Close()
-				return err
-			}
-
-			if err := rev.Close(); err != nil {
 				return err
 			}
 			fixPermissions(w.fs, revPath)
@@ -247,6 +229,30 @@ func (w *PackWriter) save() error {
 	}
 
 	return nil
+}
+
+// writeCompanion writes an idx or rev file under a temporary name and renames
+// it into place. save skips a companion that already exists, so a file visible
+// under its final name must be complete: one cut short by an interrupted run
+// would otherwise be kept for good when the same pack is received again.
+func (w *PackWriter) writeCompanion(path string, encode func(io.Writer) error) error {
+	f, err := w.fs.TempFile(w.fs.Join(objectsPath, packPath), "tmp_idx_")
+	if err != nil {
+		return err
+	}
+
+	if err := encode(f); err != nil {
+		_ = f.Close()
+		_ = w.fs.Remove(f.Name())
+		return err
+	}
+
+	if err := f.Close(); err != nil {
+		_ = w.fs.Remove(f.Name())
+		return err
+	}
+
+	return w.fs.Rename(f.Name(), path)
 }
 
 // fileExists checks whether path already exists as a regular file.
